@@ -45,6 +45,7 @@ type OrefaFile struct {
 	vfs        *OrefaFS      // vfs is the memory file system of the file.
 	nd         *node         // nd is node of the file.
 	name       string        // name is the name of the file.
+	absPath    string        // absPath is the absolute path of the file when it was opened.
 	dirEntries []fs.DirEntry // dirEntries stores the file information returned by ReadDir function.
 	dirNames   []string      // dirNames stores the names of the file returned by Readdirnames function.
 	at         int64         // at is current position in the file used by Read and Write functions.
